@@ -193,6 +193,18 @@ def run(ctx):
                     if scale is None:
                         ctx.oracle_fail("unknown unit in rendering", {"size": size, "spec": spec}, detail={"text": text})
                         continue
+                    # without a fixed unit the unit is the largest one not exceeding the size, in the base the
+                    # specifier selects: decimal (1000) with `d`, binary (1024) otherwise
+                    mfl = re.match(r"^(?:%\.\d+)?\s?(c|d|s|cs|ds|cd)?$", spec)
+                    if mfl is not None and size > 0:
+                        ubase = 1000 if "d" in (mfl.group(1) or "") else 1024
+                        want_scale = 0
+                        while ubase ** (want_scale + 1) <= size:
+                            want_scale += 1
+                        if scale != want_scale:
+                            ctx.oracle_fail("the unit is not the largest one not exceeding the size in the specifier's base",
+                                            {"size": size, "spec": spec, "level": "in-process format_filesize"},
+                                            detail={"text": text, "base": ubase, "expected_power": want_scale})
                     places = len(mnum.group(1).split(".")[1]) if "." in mnum.group(1) else 0
                     ok_any = False
                     for basev in (1024, 1000):
